@@ -626,7 +626,7 @@ def main(prop):
     t0 = time.time()
     parts = parallel(work, items, chunk=40)
     results, tw = [], [0, 0]
-    stats = {'queries': 0, 'unsat': 0, 'sat': 0, 'unknown': 0, 'solver_s': 0.0}
+    stats = dict.fromkeys(zq.STATS, 0)
     for p in parts:
         results += p['results']
         tw[0] += p['twins'][0]
